@@ -14,7 +14,7 @@ RULE = ("cases: k in 2..5, r in 0..2 (k^(2r+1) <= 3125), all four flag combinati
         "one random decision was consumed and the table has >= 8 entries.")
 TRUSTED = ["random.random / random.choice / np.random.randint replaced inside cellpylib.rule_tables by a recording oracle",
            "float comparison of (k^n - c)/k^n with a target m/64 behaves like the rational comparison for k^n <= 3125"]
-ASSUMPTIONS = ["k <= 10 (table_rule renders states with str, random_rule_table with base_repr; they coincide for k <= 10)",
+ASSUMPTIONS = ["table_rule is exercised for k <= 10 only (it renders states with str, the tables use base_repr digits; they coincide for k <= 10); random_rule_table / table_walk_through for k up to 36",
                "table_walk_through is exercised on complete tables (what random_rule_table returns)"]
 
 
@@ -158,6 +158,11 @@ def gen(ctx):
         yield dict(kind="walk", k=k, r=r, q=rng.randrange(k), sq=int(rng.random() < 0.5), iso=int(rng.random() < 0.5),
                    lam=rng.randint(0, 64), target=rng.choice(["current", 0, 64, rng.randint(0, 64), rng.randint(0, 64), "attainable", "attainable"]),
                    seed=rng.randrange(10 ** 6))
+    for (k, r) in ([(11, 1), (12, 1), (13, 0), (16, 1), (36, 0)] if ctx.tier == "quick" else [(11, 0), (11, 1), (12, 1), (13, 0), (13, 1), (16, 1), (20, 1), (36, 0), (36, 1)]):
+        for (sq, iso) in ((1, 0), (1, 1), (0, 1)):
+            yield dict(kind="rrt", k=k, r=r, q=rng.randrange(k), sq=sq, iso=iso, lam=rng.randint(0, 64), seed=rng.randrange(10 ** 6))
+            yield dict(kind="walk", k=k, r=r, q=rng.randrange(k), sq=sq, iso=iso, lam=rng.choice([0, 64, rng.randint(0, 64)]),
+                       target=rng.choice([0, 64, 26, "attainable"]), seed=rng.randrange(10 ** 6))
     for (k, r) in ([(2, 3), (4, 2)] if ctx.tier == "quick" else [(2, 3), (2, 4), (3, 2), (4, 2), (5, 2)]):
         for sq in (0, 1):
             yield dict(kind="rrt", k=k, r=r, q=rng.randrange(k), sq=sq, iso=1 - sq, lam=rng.randint(0, 64), seed=rng.randrange(10 ** 6))
@@ -230,7 +235,7 @@ def impl(c):
 
 def check_table(c, table, q, total, n):
     k = c["k"]
-    want = [np.base_repr(i, k).zfill(n) for i in range(total)]
+    want = [np.base_repr(i, k).zfill(n) for i in range(total)]     # digits 0-9A-Z
     if sorted(table.keys()) != sorted(want) or len(table) != total:
         return "key set is not the k^(2r+1) neighbourhood strings, each once"
     if any(not (0 <= int(v) <= k - 1) for v in table.values()):
